@@ -85,6 +85,7 @@ type GenesisSpec struct {
 	Eco      json.RawMessage `json:"eco,omitempty"`
 	Data     json.RawMessage `json:"data,omitempty"`
 	Funds    []Fund          `json:"funds,omitempty"`
+	Locked   []Fund          `json:"locked,omitempty"` // permanently locked (vesting) part of an account's funds
 	Hasher   HasherSpec      `json:"hasher,omitempty"`
 	Notes    []string        `json:"notes,omitempty"`
 }
@@ -104,6 +105,17 @@ func (g GenesisSpec) ToChainGenesis() (chain.Genesis, error) {
 		}
 		cg.Balances = append(cg.Balances, chain.Balance{Addr: a, Coins: c})
 	}
+	for _, f := range g.Locked {
+		a, err := sdk.AccAddressFromBech32(f.Addr)
+		if err != nil {
+			return cg, err
+		}
+		c, err := sdk.ParseCoinsNormalized(f.Coins)
+		if err != nil {
+			return cg, err
+		}
+		cg.Locked = append(cg.Locked, chain.Balance{Addr: a, Coins: c})
+	}
 	return cg, nil
 }
 
@@ -118,6 +130,7 @@ type TStep struct {
 	OK      *bool           `json:"ok,omitempty"`
 	Err     string          `json:"err,omitempty"`
 	MsgType string          `json:"type,omitempty"`
+	Sub     []TStep         `json:"sub,omitempty"` // kind "spec": messages executed on a discarded branch
 }
 
 // Trace is a replayable history.
@@ -221,6 +234,8 @@ func Replay(tr *Trace, prof *Profile, fail FailFunc, mons ...Monitor) *World {
 		switch s.Kind {
 		case "block", "restart":
 			w.NextBlock(time.Unix(0, s.TimeNs).UTC(), s.Kind == "restart")
+		case "spec":
+			w.replaySpec(s)
 		case "faucet":
 			a, err := sdk.AccAddressFromBech32(s.Addr)
 			if err != nil {
@@ -232,20 +247,36 @@ func Replay(tr *Trace, prof *Profile, fail FailFunc, mons ...Monitor) *World {
 			}
 			w.Faucet(a, c)
 		default:
-			var msg sdk.Msg
-			if len(s.Bin) > 0 {
-				var any codectypes.Any
-				if err := any.Unmarshal(s.Bin); err != nil {
-					fail("harness: trace: cannot decode message: %v", err)
-				}
-				if err := w.C.Cdc.UnpackAny(&any, &msg); err != nil {
-					fail("harness: trace: cannot unpack message: %v", err)
-				}
-			} else if err := w.C.Cdc.UnmarshalInterfaceJSON(s.Msg, &msg); err != nil {
-				fail("harness: trace: cannot decode message: %v", err)
-			}
-			w.Deliver(s.Kind, msg)
+			w.Deliver(s.Kind, w.decodeStep(s))
 		}
 	}
 	return w
+}
+
+func (w *World) decodeStep(s TStep) sdk.Msg {
+	var msg sdk.Msg
+	if len(s.Bin) > 0 {
+		var any codectypes.Any
+		if err := any.Unmarshal(s.Bin); err != nil {
+			w.Fail("harness: trace: cannot decode message: %v", err)
+		}
+		if err := w.C.Cdc.UnpackAny(&any, &msg); err != nil {
+			w.Fail("harness: trace: cannot unpack message: %v", err)
+		}
+	} else if err := w.C.Cdc.UnmarshalInterfaceJSON(s.Msg, &msg); err != nil {
+		w.Fail("harness: trace: cannot decode message: %v", err)
+	}
+	return msg
+}
+
+// replaySpec re-executes the messages of a recorded speculative step on a discarded branch.
+func (w *World) replaySpec(s TStep) {
+	w.StepIdx++
+	w.Trace.Steps = append(w.Trace.Steps, s)
+	w.C.Sandbox(func() {
+		for _, x := range s.Sub {
+			w.C.Deliver(w.decodeStep(x))
+		}
+	})
+	w.addSig("spec", true)
 }
